@@ -197,8 +197,16 @@ def _run(case, rng, kind, res, bump, tmp, PreOCF, RandomMinCRepPreOCF):
     # ------------------------------------------------------------ fresh interpreter
     if case.get('fresh'):
         qf = os.path.join(tmp, 'q.json')
-        json.dump({'worlds': order[:max(1, len(order) // 2)], 'queries': qtext}, open(qf, 'w'))
+        job = {'worlds': order[:max(1, len(order) // 2)], 'queries': qtext}
         env = dict(os.environ, INFOCF_LOGLEVEL='ERROR')
+        meta_child = None
+        if rng.random() < 0.5:
+            # the child saves metadata while running under a non-UTF-8 locale; this process loads it
+            meta_child = os.path.join(tmp, 'childmeta' + rng.choice(['.json', '.meta', '']))
+            job['save_metadata_to'] = meta_child
+            job['metadata'] = meta
+            env.update(LC_ALL='C', LANG='C', PYTHONUTF8='0', PYTHONCOERCECLOCALE='0')
+        json.dump(job, open(qf, 'w'))
         try:
             r = subprocess.run(['/venv/bin/python', os.path.join(os.path.dirname(os.path.dirname(__file__)), 'reload_helper.py'), p, qf],
                                capture_output=True, text=True, timeout=120, env=env)
@@ -219,6 +227,20 @@ def _run(case, rng, kind, res, bump, tmp, PreOCF, RandomMinCRepPreOCF):
                     viol('fresh-process:acceptance-differs', got=out['acceptance'], expected=ref_acc, queries=qtext)
                 if ref_imp is not None and out['impacts'] != ref_imp:
                     viol('fresh-process:impacts-differ', got=out['impacts'], expected=ref_imp)
+                if meta_child is not None:
+                    res['evals'] += 1
+                    bump('metadata_saved_under_non_utf8_locale')
+                    if out.get('metadata_saved') is not True:
+                        viol('metadata-save-failed-under-non-utf8-locale', error=str(out.get('metadata_saved')), metadata=meta)
+                    else:
+                        try:
+                            t = PreOCF.init_custom({'0': 0, '1': 1}, None, ['a'])
+                            t.load_metadata(meta_child)
+                            got = {k_: v for k_, v in t.metadata.items() if k_ in meta}
+                            if json.dumps(got, sort_keys=True) != json.dumps(meta, sort_keys=True):
+                                viol('metadata-written-under-non-utf8-locale-reloads-differently', got=got, expected=meta)
+                        except Exception as e:
+                            viol('metadata-written-under-non-utf8-locale-unreadable:%s' % type(e).__name__, error=str(e)[:150])
                 if partial:
                     res['nontrivial'].append(h(desc, 'fresh-process', pre))
         except subprocess.TimeoutExpired:
@@ -270,6 +292,24 @@ def _run(case, rng, kind, res, bump, tmp, PreOCF, RandomMinCRepPreOCF):
             except Exception as e:
                 viol('impacts-file-roundtrip-raised:%s:suffix-%s:fmt-%s%s' % (type(e).__name__, cls, fmt, ':upper-case' if suf != suf.lower() else ''),
                      suffix=suf, error=str(e)[:150])
+        try:
+            # the same impacts over a LARGER explicit signature (one unused atom): ranks do not depend on it
+            big = list(sig) + ['zz']
+            ip2 = os.path.join(tmp, 'imp_big.json')
+            o.export_impacts(ip2)
+            for tb in (RandomMinCRepPreOCF.init_with_impacts(bb, ip2, signature=big),
+                       RandomMinCRepPreOCF.init_with_impacts_list(bb, o.save_impacts(), signature=big)):
+                res['evals'] += 1
+                bump('impacts_over_extended_signature')
+                if list(tb.signature) != big:
+                    viol('impacts-extended-signature:signature-differs', got=list(tb.signature))
+                    continue
+                allr = tb.compute_all_ranks()
+                exp_big = {w + b_: r for w, r in ref_all.items() for b_ in '01'}
+                if dict(allr) != exp_big:
+                    viol('impacts-extended-signature:ranks-differ', got=len(allr), expected=len(exp_big))
+        except Exception as e:
+            viol('impacts-extended-signature-raised:%s' % type(e).__name__, error=str(e)[:150])
         try:
             t = RandomMinCRepPreOCF.init_with_impacts_list(bb, o.save_impacts())
             t2 = RandomMinCRepPreOCF.init_with_impacts_list(bb, [0] * len(conds))
